@@ -35,7 +35,7 @@ func genWorkload(p wlParams) *rapid.Generator[Case] {
 		if c.Cfg.Mode != 0 && p.MergePct > 0 && c.Cfg.Mode == 2 {
 			c.Cfg.Mode = 1 // Merge is not supported in sparse mode
 		}
-		gop := genMixedOp(structs, buckets, kvKeys, sKeys, true)
+		gop := genMixedOp(structs, buckets, kvKeys, sKeys, true, nil)
 		maxSteps := p.MaxSteps
 		if p.MergePct > 0 && c.Cfg.Seg <= 200 && rapid.IntRange(0, 5).Draw(t, "manysegs") == 3 {
 			maxSteps *= 3 // more than ten segments before a Merge (file ids with two digits)
